@@ -18,6 +18,7 @@ NAME_POOLS = [
 W_INT = ["1", "2", "3", "5", "1", "1", "4", "10"]
 W_RAT = ["1/2", "1/3", "3/2", "7/3", "5/7", "2/7", "1"]
 W_BIG = ["1000", "999", "12345"]
+W_FINE = ["1/999983", "500001/999983", "1/2000", "999979/1000000"]     # denominators near the 10^6 storage limit
 
 
 def pick_names(rng, n):
@@ -34,8 +35,10 @@ def rand_weight(rng, kind="mixed"):
     r = rng.random()
     if r < 0.55:
         return rng.choice(W_INT)
-    if r < 0.92:
+    if r < 0.88:
         return rng.choice(W_RAT)
+    if r < 0.94:
+        return rng.choice(W_FINE)
     return rng.choice(W_BIG)
 
 
